@@ -534,19 +534,22 @@ func hasFactRec(in ssa.Instruction, pred func(f fact) bool, depth int) bool {
 		}
 		if leaves := helperBoolLeafFacts(f); len(leaves) > 0 {
 			all := true
-			for _, lf := range leaves {
-				one := false
-				for _, x := range lf {
-					if pred(x) {
-						one = true
+			// the helper's parameters stand for the arguments of this very call
+			withSite(helperBoolCall(f), func() {
+				for _, lf := range leaves {
+					one := false
+					for _, x := range lf {
+						if pred(x) {
+							one = true
+							break
+						}
+					}
+					if !one {
+						all = false
 						break
 					}
 				}
-				if !one {
-					all = false
-					break
-				}
-			}
+			})
 			if all {
 				return true
 			}
@@ -1136,6 +1139,22 @@ func allFactsAt(in ssa.Instruction, depth int) []fact {
 		}
 	}
 	return gs
+}
+
+// helperBoolCall: the call of a private helper whose boolean result the fact is about (nil if none).
+func helperBoolCall(f fact) ssa.Instruction {
+	c := f.Cond
+	for i := 0; i < 8; i++ {
+		if u, ok := c.(*ssa.UnOp); ok && u.Op == token.NOT {
+			c = u.X
+			continue
+		}
+		break
+	}
+	if call, ok := c.(*ssa.Call); ok && helperCallee(call) != nil {
+		return call
+	}
+	return nil
 }
 
 // helperBoolLeafFacts: for a fact on the boolean result of a private helper, what is known for each leaf of the
